@@ -52,7 +52,7 @@ func TestProp(t *testing.T) {
 	}
 	nFiles, nClient := 4000, 800
 	if vh.Thorough() {
-		nFiles, nClient = 100000, 20000
+		nFiles, nClient = 1000000, 100000
 	}
 	r.SetRule(fmt.Sprintf("parse family f/<i> (%d files): model from the seeded PRNG - version 1+i%%4, v4 header with 0..2 fields (tag 1 KDC offset or an unknown tag with 0..12 bytes), "+
 		"default principal and 0..6 credentials with 0..3 components (pool + random byte strings, incl. empty, '/', '@', non-UTF-8), name types incl. negative, key types 0..0x7fff, key length 0..64, "+
